@@ -236,6 +236,9 @@ inline FloatType ParseFloat(const char *nptr, char **endptr) {
     if (expon > kMaxExponent) {  // out of range, clip or raise error
       if (CheckRange) {
         errno = ERANGE;
+        if (*p == 'f' || *p == 'F') {
+          ++p;  // the suffix still belongs to the number
+        }
         if (endptr) {
           *endptr = (char *)p;  // NOLINT(*)
         }
@@ -250,6 +253,9 @@ inline FloatType ParseFloat(const char *nptr, char **endptr) {
             || (frac && value < kMaxSignificandForNegMaxExponent))) {
       if (CheckRange) {
         errno = ERANGE;
+        if (*p == 'f' || *p == 'F') {
+          ++p;  // the suffix still belongs to the number
+        }
         if (endptr) {
           *endptr = (char *)p;  // NOLINT(*)
         }
@@ -273,6 +279,9 @@ inline FloatType ParseFloat(const char *nptr, char **endptr) {
     // exponent alone is in range (e.g. "100e37" for float)
     if (CheckRange && value == std::numeric_limits<FloatType>::infinity()) {
       errno = ERANGE;
+      if (*p == 'f' || *p == 'F') {
+        ++p;  // the suffix still belongs to the number
+      }
       if (endptr) {
         *endptr = (char *)p;  // NOLINT(*)
       }
